@@ -63,6 +63,8 @@ def _run_job(job):
     kw = dict(kw)
     raw = kw.pop("raw", False)
     alg.RAW[0] = bool(raw)
+    if tier == "thorough":
+        kw.setdefault("cross", 3)
     ex = Explorer(**kw)
     try:
         ex.run(lambda ctx: fn(ctx, **case), lambda e: SymCtx(e, lw))
@@ -362,6 +364,7 @@ def run_check(prop, tier, repo, jobs, seed):
         "raw_crosscheck": {"normal_form_identities_confirmed_by_z3_on_the_unnormalised_expression": int(agg.get("raw_confirmed", 0)),
                            "solver_unknown": int(agg.get("raw_unknown", 0)), "disagreements": int(agg.get("raw_disagree", 0))},
         "refuted_by_z3_model": int(agg.get("refuted", 0)),
+        "cross_solver": {k: int(v) for k, v in agg.items() if k.startswith("cross_")},
         "refuted_reproduced_keys": sorted(reproduced),
         "refuted_spurious": spurious,
         "inconclusive": int(agg.get("inconclusive", 0)),
